@@ -80,8 +80,8 @@ Theorem prefix_stable_top : forall m d ps fuel bytes extra,
        fle f f').
 Proof. exact Stable.prefix_stable_top. Qed.
 
-(* The unrestricted statement is false of the faithful model; both witnesses are genuine defects
-   of the generated code / runtime (findings F9 and null-byte-order-short-buffer). *)
+(* The unrestricted statement is false of the faithful model; the witness is a genuine defect
+   of the generated code / runtime (finding F9; the Null-byte-order witness disappeared with fix c90547c). *)
 Theorem prefix_stable_refuted_array :
   exists m d ps fuel bytes extra,
     In d m /\
@@ -96,17 +96,6 @@ Theorem prefix_stable_refuted_array :
     nth_error (run_view m 0 ps (bytes ++ extra) fuel) 10 = Some 3 /\
     ~ prefix_stable_at m d ps fuel bytes extra.
 Proof. exact Stable.prefix_stable_refuted_array. Qed.
-
-Theorem prefix_stable_refuted_null_order :
-  exists m d ps fuel bytes extra,
-    In d m /\
-    let r := eval_struct m bytes fuel d ps true (root bytes) in
-    let r' := eval_struct m (bytes ++ extra) fuel d ps true (root (bytes ++ extra)) in
-    (exists f f', nth_error (fr_sub r) 1 = Some (Some f) /\ nth_error (fr_sub r') 1 = Some (Some f') /\
-                  fr_has f = Some true /\ fr_ok f = true /\ fr_ok f' = true /\
-                  fr_val f = Some (VInt 0) /\ fr_val f' = Some (VInt 9)) /\
-    ~ prefix_stable_at m d ps fuel bytes extra.
-Proof. exact Stable.prefix_stable_refuted_null_order. Qed.
 
 (* the class wf_stable is inhabited by a module with a conditional field, a dynamic offset, a nested
    structure, a bits block with an alias, a virtual field and a [requires] *)
